@@ -121,7 +121,7 @@ func c07TreeBodyInner(t *c07Tree, kindSeed *int) *YMap { return c07TreeBody(t, k
 func init() {
 	Register(Meta{
 		ID: "C07", Level: "exploration",
-		Rule: "axes swept completely to a bound past every size-dependent cliff in the translator (26-entry variable list, `<var>s` plurals, X<n> fallback, counter digits): A1 every documented constraint kind (23 + a combination) and nested/atLeast/atMost x every path AST with <=2 (quick) / <=3 (thorough) leaves; A2 q=1..40 quantified sibling constraints under one map for each quantifier kind, and nested+atLeast+atMost on one path; A3 linear quantifier chains of depth 1..7 (quick) / 1..9 (thorough; the engine's compile time grows ~3.6x per level) and every ordered rooted tree of quantifiers with <=5 (quick) / <=6 (thorough) nodes x rotating quantifier kinds; A4 v=1..40 validations in three level distributions; A5 every C01 propositional formula of size <=1 (quick) / <=2 (thorough) under a quantifier preceded by q in {0,10,11,12,25,26,27} quantified siblings (so the formula meets every variable-index cliff). A7 profile names in several scripts and with reserved words. A6 every (quick: half of the) ordered pairs of constraint kinds on one property joined by or / if-then / not-and / or inside nested. Oracle: CompileProfile returns no error, and one evaluation on an empty graph and on a small graph returns no error (a policy rejected at first evaluation because generated rules collide is not 'accepted'). Non-trivial = every profile (each is a distinct well-formed program); distinct by text.",
+		Rule: "axes swept completely to a bound past every size-dependent cliff in the translator (26-entry variable list, `<var>s` plurals, X<n> fallback, counter digits): A1 every documented constraint kind (23 + a combination) and nested/atLeast/atMost x every path AST with <=2 (quick) / <=3 (thorough) leaves; A2 q=1..40 quantified sibling constraints under one map for each quantifier kind, and nested+atLeast+atMost on one path; A3 linear quantifier chains of depth 1..7 (quick) / 1..9 (thorough; the engine's compile time grows ~3.6x per level) and every ordered rooted tree of quantifiers with <=5 (quick) / <=6 (thorough) nodes x rotating quantifier kinds; A4 v=1..40 validations in three level distributions; A5 every C01 propositional formula of size <=1 (quick) / <=2 (thorough) under a quantifier preceded by q in {0,10,11,12,25,26,27} quantified siblings (so the formula meets every variable-index cliff). A7 profile names in several scripts and with reserved words. A8 boundary values of constraint arguments: in/containsAll/containsSome lists with 0, 1, 2 (duplicate), 3 and 40 members of every scalar type, count/length bounds 0..10^6, numeric bounds 0/negative/fractional/1e21, empty and one-character patterns, each plain, negated and under a quantifier. A6 every (quick: half of the) ordered pairs of constraint kinds on one property joined by or / if-then / not-and / or inside nested. Oracle: CompileProfile returns no error, and one evaluation on an empty graph and on a small graph returns no error (a policy rejected at first evaluation because generated rules collide is not 'accepted'). Non-trivial = every profile (each is a distinct well-formed program); distinct by text.",
 	}, c07Gen, c07Run)
 }
 
@@ -241,6 +241,55 @@ func c07Gen(tier string, emit func(c07Case)) {
 			for si, sh := range shapes {
 				emit(c07Case{"A6", fmt.Sprintf("%s and %s in shape %d", k1.name, k2.name, si), c07One(sh)})
 			}
+		}
+	}
+	// A8: boundary values of constraint arguments — list constraints with 0, 1, 2 (duplicate), 3 and 40 members of each
+	// scalar type, numeric bounds 0 / negative / fractional / large, empty and one-character patterns; each plain, under
+	// `not`, and inside a quantifier
+	{
+		long := []any{}
+		for i := 0; i < 40; i++ {
+			long = append(long, fmt.Sprintf("v%d", i))
+		}
+		lists := []struct {
+			name string
+			l    []any
+		}{{"empty", []any{}}, {"one string", []any{"a"}}, {"duplicate", []any{"a", "a"}}, {"three", []any{"a", "b", "c"}}, {"forty", long}, {"one int", []any{1}}, {"one float", []any{1.5}}, {"one bool", []any{true}},
+			{"mixed", []any{"a", 1, true, 2.5}}, {"empty string", []any{YQ("")}}, {"with space", []any{"a b"}}, {"zero and false", []any{0, false}}, {"negative", []any{-1, -2.5}}}
+		var cons []struct {
+			name string
+			c    *YMap
+		}
+		add := func(name string, c *YMap) {
+			cons = append(cons, struct {
+				name string
+				c    *YMap
+			}{name, c})
+		}
+		for _, k := range []string{"in", "containsAll", "containsSome"} {
+			for _, l := range lists {
+				add(k+" "+l.name, M(k, l.l))
+			}
+		}
+		for _, k := range []string{"minCount", "maxCount", "exactCount", "minLength", "maxLength", "exactLength"} {
+			for _, n := range []int{0, 1, 100, 1000000} {
+				add(fmt.Sprintf("%s %d", k, n), M(k, n))
+			}
+		}
+		for _, k := range []string{"minInclusive", "maxInclusive", "minExclusive", "maxExclusive"} {
+			for _, n := range []any{0, -1, -1.5, 0.0, 1000000, 1e21, 0.000001} {
+				add(fmt.Sprintf("%s %v", k, n), M(k, n))
+			}
+		}
+		for _, pat := range []string{"", ".", "^$", "a|b", "[a-z]{2,3}", "\\d+"} {
+			add(fmt.Sprintf("pattern %q", pat), M("pattern", YQ(pat)))
+		}
+		add("uniqueValues false", M("uniqueValues", false))
+		for _, cn := range cons {
+			body := M("propertyConstraints", M("ex.p1", cn.c))
+			emit(c07Case{"A8", cn.name, c07One(body)})
+			emit(c07Case{"A8", "not " + cn.name, c07One(M("not", body))})
+			emit(c07Case{"A8", "nested " + cn.name, c07One(M("propertyConstraints", M("ex.c", M("nested", body))))})
 		}
 	}
 	// A7: the profile name only feeds a generated package name; any name must do
